@@ -23,6 +23,13 @@
 //!    that a kind that starts to use module-level storage is seen even when its
 //!    loads / stores / copies stay the same.
 //!
+//!  * the host side of a call, `RotoFunc::invoke` (`macro_rules! func` of
+//!    `src/codegen/check.rs`, token scan): the return pointer handed to the
+//!    compiled function is `as_mut_ptr()` of a `let`-bound
+//!    `MaybeUninit::uninit()` local of that body (the host's return buffer is
+//!    in the frame of the host's call), and the body has no `static`,
+//!    `thread_local`, leaked or raw allocation.
+//!
 //! A method whose name looks like a memory / storage operation and is not
 //! classified is an extraction failure. `#[cfg(feature = "verif-hooks")]` items
 //! and statements are skipped.
@@ -264,6 +271,102 @@ impl<'ast> Visit<'ast> for DataObjs {
     }
 }
 
+fn flatten_tokens(ts: proc_macro2::TokenStream, out: &mut Vec<String>) {
+    for t in ts {
+        match t {
+            proc_macro2::TokenTree::Group(g) => {
+                let (o, c) = match g.delimiter() {
+                    proc_macro2::Delimiter::Parenthesis => ("(", ")"),
+                    proc_macro2::Delimiter::Brace => ("{", "}"),
+                    proc_macro2::Delimiter::Bracket => ("[", "]"),
+                    proc_macro2::Delimiter::None => ("", ""),
+                };
+                out.push(o.to_string());
+                flatten_tokens(g.stream(), out);
+                out.push(c.to_string());
+            }
+            other => out.push(other.to_string()),
+        }
+    }
+}
+
+/// The host side of a call (`RotoFunc::invoke`, generated by `macro_rules! func`
+/// in `src/codegen/check.rs`; the body is not Rust syntax before expansion, so
+/// this is a token scan): for every `fn invoke` with a body, is the return
+/// pointer handed to the compiled function `<x>.as_mut_ptr()` of a `let`-bound
+/// `MaybeUninit::<…>::uninit()` local of that body, and does the body stay clear
+/// of `static` / `thread_local` / leaked or raw allocations.
+fn host_invokes(repo: &Path) -> Result<Vec<(bool, bool)>, String> {
+    let text = std::fs::read_to_string(repo.join("src/codegen/check.rs")).map_err(|e| format!("src/codegen/check.rs: {e}"))?;
+    let ts: proc_macro2::TokenStream = text.parse().map_err(|e| format!("src/codegen/check.rs does not tokenise: {e}"))?;
+    let mut toks = vec![];
+    flatten_tokens(ts, &mut toks);
+    let mut out = vec![];
+    let mut i = 0;
+    while i + 1 < toks.len() {
+        if toks[i] == "fn" && toks[i + 1] == "invoke" {
+            // skip to the body: the first `{` at depth 0 after the parameter list, or `;` (trait item)
+            let mut j = i + 2;
+            let mut depth = 0i32;
+            let mut body_start = None;
+            while j < toks.len() {
+                match toks[j].as_str() {
+                    "(" | "[" => depth += 1,
+                    ")" | "]" => depth -= 1,
+                    ";" if depth == 0 => break,
+                    "{" if depth == 0 => {
+                        body_start = Some(j);
+                        break;
+                    }
+                    _ => {}
+                }
+                j += 1;
+            }
+            if let Some(b) = body_start {
+                let mut d = 0i32;
+                let mut e = b;
+                while e < toks.len() {
+                    match toks[e].as_str() {
+                        "{" => d += 1,
+                        "}" => {
+                            d -= 1;
+                            if d == 0 {
+                                break;
+                            }
+                        }
+                        _ => {}
+                    }
+                    e += 1;
+                }
+                let body = &toks[b..e.min(toks.len())];
+                // `func_ptr ( <x> . as_mut_ptr ( ) ,` — the return pointer
+                let mut ret_local = false;
+                let mut handed = 0;
+                for k in 0..body.len().saturating_sub(7) {
+                    if body[k] == "func_ptr" && body[k + 1] == "(" && body[k + 3] == "." && body[k + 4] == "as_mut_ptr" && body[k + 5] == "(" && body[k + 6] == ")" && body[k + 7] == "," {
+                        handed += 1;
+                        let x = &body[k + 2];
+                        // `let mut <x> = MaybeUninit :: < … > :: uninit ( ) ;`
+                        ret_local = (0..body.len().saturating_sub(6)).any(|m| {
+                            body[m] == "let" && body[m + 1] == "mut" && &body[m + 2] == x && body[m + 3] == "=" && body[m + 4] == "MaybeUninit" && {
+                                let semi = (m..body.len()).find(|&q| body[q] == ";").unwrap_or(body.len());
+                                semi >= 4 && body[semi - 3] == "uninit" && body[semi - 2] == "(" && body[semi - 1] == ")"
+                            }
+                        });
+                    }
+                }
+                let clean = !body.iter().any(|t| {
+                    let t = t.as_str();
+                    t == "static" || t == "thread_local" || t == "leak" || t == "alloc" || t == "alloc_zeroed" || t == "from_raw" || t == "into_raw" || t == "UnsafeCell" || t == "LazyLock" || t == "OnceLock"
+                });
+                out.push((handed == 1 && ret_local, clean));
+            }
+        }
+        i += 1;
+    }
+    Ok(out)
+}
+
 fn rs_files(dir: &Path, out: &mut Vec<PathBuf>) -> Result<(), String> {
     let mut es: Vec<_> = std::fs::read_dir(dir)
         .map_err(|e| format!("cannot list {}: {e}", dir.display()))?
@@ -388,6 +491,8 @@ pub fn c12frame(repo: &Path) -> Result<String, String> {
         }
     }
 
+    let invokes = host_invokes(repo)?;
+
     let mut s = String::new();
     s.push_str("/- GENERATED by /verif/extract (target c12frame) from src/codegen/ (ModuleBuilder::define_function, FuncGen::entry_block, FuncGen::instruction, every data object declared) — do not edit. -/\nimport RotoV.Model.ConcFrame\nnamespace RotoV.Gen.C12Frame\nopen RotoV.Conc.Frame\n\n");
     s.push_str("def facts : Facts where\n  slotArms := [\n");
@@ -420,6 +525,8 @@ pub fn c12frame(repo: &Path) -> Result<String, String> {
             .collect::<Vec<_>>()
             .join(",\n"),
     );
+    s.push_str("]\n  -- src/codegen/check.rs: bodies of `fn invoke` (macro_rules! func)\n  hostInvokes := [");
+    s.push_str(&invokes.iter().map(|(r, c)| format!("{{ retIsLocal := {r}, clean := {c} }}")).collect::<Vec<_>>().join(", "));
     s.push_str("]\n\nend RotoV.Gen.C12Frame\n");
     Ok(s)
 }
